@@ -15,8 +15,7 @@ Qed.
 
 Lemma mem_false : forall n l, mem n l = false <-> ~ In n l.
 Proof.
-  intros n l. rewrite <- mem_In. destruct (mem n l); split; intro H; try congruence; try reflexivity.
-  exfalso. apply H. reflexivity.
+  intros n l. rewrite <- mem_In. destruct (mem n l); split; intro H; congruence.
 Qed.
 
 Lemma filter_notin : forall n l, ~ In n l -> filter (fun x => negb (x =? n)) l = l.
